@@ -27,11 +27,22 @@ class RaisedInternal(Exception):
 
 @dataclass(frozen=True)
 class LocV:
-    file: int
-    rank: int
+    """Symbolic location: file id, line rank, column rank (dataclass order = this tuple)."""
 
-    def key(self) -> tuple[int, int]:
-        return (self.file, self.rank)
+    file: int
+    line: int
+    col: int = 0
+
+    def key(self) -> tuple[int, int, int]:
+        return (self.file, self.line, self.col)
+
+
+@dataclass(frozen=True)
+class IntV:
+    """A line or column number known only up to its rank among the other lines/columns."""
+
+    kind: str  # "line" | "col"
+    rank: int
 
 
 @dataclass(frozen=True)
@@ -57,6 +68,8 @@ class Evaluator:
         self.cls = cls_node
         self.kinds = class_names
         self.props = {}
+        self.methods = {st.name: st for st in cls_node.body if isinstance(st, ast.FunctionDef)}
+        self.depth = 0
         for st in cls_node.body:
             if isinstance(st, ast.FunctionDef) and any(
                 isinstance(d, ast.Name) and d.id in ("property", "cached_property") for d in st.decorator_list
@@ -85,6 +98,14 @@ class Evaluator:
                 continue
             if isinstance(st, ast.Assign) and len(st.targets) == 1 and isinstance(st.targets[0], ast.Name):
                 env[st.targets[0].id] = self.ev(st.value, env)
+                continue
+            if isinstance(st, ast.Assign) and len(st.targets) == 1 and isinstance(st.targets[0], ast.Tuple) \
+                    and all(isinstance(t, ast.Name) for t in st.targets[0].elts):
+                v = self.ev(st.value, env)
+                if not isinstance(v, tuple) or len(v) != len(st.targets[0].elts) or (v and v[0] == "file"):
+                    raise Unsupported("tuple unpacking of a non-tuple")
+                for t, x in zip(st.targets[0].elts, v):
+                    env[t.id] = x
                 continue
             if isinstance(st, ast.AnnAssign) and isinstance(st.target, ast.Name) and st.value is not None:
                 env[st.target.id] = self.ev(st.value, env)
@@ -150,6 +171,8 @@ class Evaluator:
             return True
         if isinstance(e, ast.Call):
             return self.call(e, env)
+        if isinstance(e, ast.Tuple):
+            return tuple(self.ev(x, env) for x in e.elts)
         raise Unsupported(f"expression {type(e).__name__}: {ast.unparse(e)[:60]}")
 
     def attr(self, v, name: str):
@@ -166,12 +189,33 @@ class Evaluator:
         if isinstance(v, LocV):
             if name == "file":
                 return ("file", v.file)
-            raise Unsupported(f"Loc attribute {name} (would leave the order abstraction)")
+            if name == "line":
+                return IntV("line", v.line)
+            if name == "column":
+                return IntV("col", v.col)
+            raise Unsupported(f"Loc attribute {name}")
         raise Unsupported(f"attribute {name} of {v!r}")
 
     def cmp(self, op: ast.cmpop, a, b) -> bool:
+        if isinstance(op, (ast.In, ast.NotIn)):
+            if not isinstance(b, SpanV) or "__contains__" not in self.methods:
+                raise Unsupported(f"`in` on {b!r}")
+            self.depth += 1
+            if self.depth > 6:
+                raise Unsupported("recursion too deep")
+            try:
+                fn = self.methods["__contains__"]
+                names = [x.arg for x in fn.args.args]
+                r = self.truth(self.run(fn, {names[0]: b, names[1]: a}))
+            finally:
+                self.depth -= 1
+            return r if isinstance(op, ast.In) else not r
         if isinstance(a, LocV) and isinstance(b, LocV):
             ka, kb = a.key(), b.key()
+        elif isinstance(a, IntV) and isinstance(b, IntV):
+            if a.kind != b.kind:
+                raise Unsupported("comparison of a line with a column")
+            ka, kb = a.rank, b.rank
         elif isinstance(a, tuple) and isinstance(b, tuple) and a[0] == "file" and b[0] == "file":
             if not isinstance(op, (ast.Eq, ast.NotEq)):
                 raise Unsupported("ordering comparison of files")
